@@ -182,18 +182,24 @@ def rowItems : Nat → Sheet → List (Nat × Option (List Val))
     (effRow cur r, if (rowCells r.cells).isEmpty then none else some (rowCells r.cells))
       :: rowItems (effRow cur r) rs
 
+/-- every `r` attribute is within `TotalRows` (the guard `Rows.Next`/`Rows.Columns` have) -/
+def RowAttrsOK : Sheet → Prop
+  | [] => True
+  | r :: rs => r.r ≤ Facts.TotalRows ∧ RowAttrsOK rs
+
 theorem foldl_rowStep_eq_fill : ∀ (rs : Sheet) (st : RState), st.seek = st.cur →
-    RowsAsc st.cur rs →
+    st.stopped = false → RowsAsc st.cur rs → RowAttrsOK rs →
     flush (rs.foldl rowStep st) = fill [] (flush st) (rowItems st.cur rs)
-  | [], _, _, _ => rfl
-  | r :: rs, st, hs, h => by
+  | [], _, _, _, _, _ => rfl
+  | r :: rs, st, hs, hst, h, ha => by
     have hgt : effRow st.cur r > st.seek := by rw [hs]; exact h.1
+    have hle : ¬ r.r > Facts.TotalRows := by have := ha.1; omega
     have hstep : rowStep st r =
         { seek := effRow st.cur r, cur := effRow st.cur r,
           it := r.cells.foldl cellStep ⟨0, []⟩, results := flush st } := by
-      unfold rowStep; simp [hgt]
+      unfold rowStep; simp [hgt, hst, hle]
     simp only [List.foldl_cons, rowItems]
-    rw [hstep, foldl_rowStep_eq_fill rs _ rfl h.2.2]
+    rw [hstep, foldl_rowStep_eq_fill rs _ rfl rfl h.2.2 ha.2]
     by_cases he : (rowCells r.cells).isEmpty = true
     · have he' : (List.foldl cellStep ⟨0, []⟩ r.cells).cells.isEmpty = true := he
       simp [he, fill, flush, he']
@@ -203,8 +209,9 @@ theorem foldl_rowStep_eq_fill : ∀ (rs : Sheet) (st : RState), st.seek = st.cur
       simp only [flush, he', if_false, Bool.false_eq_true, place]
       rfl
 
-theorem getRows_eq_fill (s : Sheet) (h : WF s) : getRows s = fill [] [] (rowItems 0 s) := by
-  have := foldl_rowStep_eq_fill s ⟨0, 0, ⟨0, []⟩, []⟩ rfl h
+theorem getRows_eq_fill (s : Sheet) (h : WF s) (ha : RowAttrsOK s) :
+    getRows s = fill [] [] (rowItems 0 s) := by
+  have := foldl_rowStep_eq_fill s ⟨0, 0, ⟨0, []⟩, [], false⟩ rfl rfl h ha
   simpa [getRows, flush] using this
 
 theorem asc_rowItems : ∀ (s : Sheet) (cur : Nat), RowsAsc cur s → Asc cur (rowItems cur s)
@@ -234,9 +241,9 @@ theorem colsAsc_rowAt : ∀ (s : Sheet) (cur k : Nat), RowsAsc cur s → ColsAsc
     · simp only [he, if_false]; exact colsAsc_rowAt rs _ k h.2.2
 
 /-- row `j+1` of GetRows is the streaming reader's output for the row numbered `j+1` -/
-theorem getRows_get (s : Sheet) (h : WF s) (j : Nat) :
+theorem getRows_get (s : Sheet) (h : WF s) (ha : RowAttrsOK s) (j : Nat) :
     ((getRows s)[j]?).getD [] = rowCells (rowAt 0 s (j + 1)) := by
-  rw [getRows_eq_fill s h, fill_get [] (rowItems 0 s) [] 0 (asc_rowItems s 0 h) (Nat.le_refl _) j]
+  rw [getRows_eq_fill s h ha, fill_get [] (rowItems 0 s) [] 0 (asc_rowItems s 0 h) (Nat.le_refl _) j]
   simp [look_rowItems]
 
 end XlModel.Readers
@@ -276,8 +283,9 @@ theorem lastSome_rowItems : ∀ (s : Sheet) (cur d : Nat), RowsAsc cur s →
       simp only [he, Bool.false_eq_true, if_false, lastSome, h0, ne_eq, not_false_eq_true, if_true]
       exact lastSome_rowItems rs _ _ h.2.2
 
-theorem getRows_length (s : Sheet) (h : WF s) : (getRows s).length = lastLiveRow 0 s 0 := by
-  rw [getRows_eq_fill s h, fill_length [] (rowItems 0 s) [] 0 (asc_rowItems s 0 h) (Nat.le_refl _)]
+theorem getRows_length (s : Sheet) (h : WF s) (ha : RowAttrsOK s) :
+    (getRows s).length = lastLiveRow 0 s 0 := by
+  rw [getRows_eq_fill s h ha, fill_length [] (rowItems 0 s) [] 0 (asc_rowItems s 0 h) (Nat.le_refl _)]
   exact lastSome_rowItems s 0 0 h
 
 /-! ## GetCellValue on a sheet that carries every reference -/
@@ -343,6 +351,10 @@ theorem gcvRows_eq_value : ∀ (s : Sheet) (cur c r : Nat), RowsAsc cur s → Ex
     · simp only [hr, if_false]
       have := gcvRows_eq_value xs (effRow cur x) c r h.2.2 he.2.2.2
       rw [hx] at this; exact this
+
+theorem rowAttrsOK_of_explicit : ∀ (s : Sheet), Explicit s → RowAttrsOK s
+  | [], _ => trivial
+  | _ :: rs, h => ⟨h.2.1, rowAttrsOK_of_explicit rs h.2.2.2⟩
 
 def lastNum (s : Sheet) : Nat := match s.getLast? with | some row => row.r | none => 0
 
@@ -526,5 +538,278 @@ theorem mem_hits_iff (needle : Val) (hne : needle ≠ []) : ∀ (s : Sheet) (cur
         | inl h1 => exact absurd (mem_hitsCells_gt _ needle r.cells 0 k m h.2.1 h1).2.symm hm
         | inr h2 => exact ih.mp h2
       · intro hv; right; exact ih.mpr hv
+
+end XlModel.Readers
+
+namespace XlModel.Readers
+
+/-! ## the column reader (Cols / GetCols) -/
+
+
+/-- the row part of every present reference is the row's effective number -/
+def RefsOK (n : Nat) (cs : List Cell) : Prop := ∀ c ∈ cs, c.col ≠ 0 → c.row = n
+
+def Consistent : Nat → Sheet → Prop
+  | _, [] => True
+  | cur, r :: rs => RefsOK (effRow cur r) r.cells ∧ Consistent (effRow cur r) rs
+
+theorem getD_pad (acc : List Val) (m j : Nat) :
+    ((acc ++ List.replicate m ([] : Val))[j]?).getD [] = (acc[j]?).getD [] := by
+  by_cases h : j < acc.length
+  · rw [List.getElem?_append_left h]
+  · rw [List.getElem?_append_right (by omega)]
+    have : acc[j]? = none := List.getElem?_eq_none (by omega)
+    rw [this]
+    by_cases h2 : j - acc.length < m
+    · simp [List.getElem?_replicate, h2]
+    · simp [List.getElem?_replicate, h2]
+
+theorem getD_snoc (l : List Val) (v : Val) (j : Nat) :
+    ((l ++ [v])[j]?).getD [] = if j = l.length then v else (l[j]?).getD [] := by
+  by_cases h : j < l.length
+  · rw [List.getElem?_append_left h]
+    have : ¬ j = l.length := by omega
+    simp [this]
+  · rw [List.getElem?_append_right (by omega)]
+    by_cases h2 : j = l.length
+    · simp [h2]
+    · have h3 : l[j]? = none := List.getElem?_eq_none (by omega)
+      obtain ⟨k, hk⟩ : ∃ k, j - l.length = k + 1 := ⟨j - l.length - 1, by omega⟩
+      simp [h2, h3, hk]
+
+theorem colCellStep_eq (k n : Nat) (it : CIter) (x : Cell) (hrow : it.cellRow = n)
+    (href : x.col ≠ 0 → x.row = n) :
+    colCellStep k it x =
+      ⟨effCol it.cellCol x, n,
+        if effCol it.cellCol x = k
+        then it.cells ++ List.replicate (n - it.cells.length - 1) [] ++ [x.val]
+        else it.cells ++ List.replicate (n - it.cells.length - 1) []⟩ := by
+  have hcr : (if x.col ≠ 0 then x.row else it.cellRow) = n := by
+    by_cases hx : x.col ≠ 0
+    · rw [if_pos hx]; exact href hx
+    · rw [if_neg hx]; exact hrow
+  unfold colCellStep
+  simp only [hcr]
+  split <;> rfl
+
+theorem colInner (k n : Nat) : ∀ (cs : List Cell) (it : CIter),
+    it.cellRow = n → it.cells.length ≤ n → (it.cells.length = n → k ≤ it.cellCol) →
+    ColsAsc it.cellCol cs → RefsOK n cs →
+    (cs.foldl (colCellStep k) it).cellRow = n ∧
+    (cs.foldl (colCellStep k) it).cells.length ≤ n ∧
+    it.cells.length ≤ (cs.foldl (colCellStep k) it).cells.length ∧
+    ∀ j, (((cs.foldl (colCellStep k) it).cells)[j]?).getD [] =
+      if j < it.cells.length then (it.cells[j]?).getD []
+      else if j + 1 = n then valAt it.cellCol cs k else []
+  | [], it, hrow, hlen, _, _, _ => by
+    refine ⟨hrow, hlen, Nat.le_refl _, fun j => ?_⟩
+    by_cases hj : j < it.cells.length
+    · simp [hj]
+    · have : it.cells[j]? = none := List.getElem?_eq_none (by omega)
+      simp [hj, this, valAt]
+  | x :: xs, it, hrow, hlen, hside, hasc, href => by
+    have hx := colCellStep_eq k n it x hrow (href x (List.mem_cons_self ..))
+    have hlt : it.cellCol < effCol it.cellCol x := hasc.1
+    have href' : RefsOK n xs := fun c hc => href c (List.mem_cons_of_mem _ hc)
+    simp only [List.foldl_cons]
+    rw [hx]
+    by_cases he : effCol it.cellCol x = k
+    · -- the cell of this column: pad to n-1, append
+      have hl1 : it.cells.length < n := by
+        rcases Nat.lt_or_ge it.cells.length n with h | h
+        · exact h
+        · have := hside (by omega); omega
+      simp only [he, if_true]
+      have hplen : (it.cells ++ List.replicate (n - it.cells.length - 1) ([] : Val) ++ [x.val]).length = n := by
+        simp; omega
+      have ih := colInner k n xs ⟨k, n, it.cells ++ List.replicate (n - it.cells.length - 1) [] ++ [x.val]⟩
+        rfl (by rw [hplen]; exact Nat.le_refl _) (fun _ => Nat.le_refl _) (he ▸ hasc.2) href'
+      refine ⟨ih.1, ih.2.1, by have := ih.2.2.1; simp only [hplen] at this; omega, fun j => ?_⟩
+      rw [ih.2.2.2 j]
+      simp only [hplen, valAt, he, if_true]
+      have hpl : (it.cells ++ List.replicate (n - it.cells.length - 1) ([] : Val)).length = n - 1 := by
+        simp; omega
+      by_cases hjn : j < n
+      · simp only [hjn, if_true]
+        rw [getD_snoc, hpl, getD_pad]
+        by_cases hj : j < it.cells.length
+        · rw [if_neg (by omega : ¬ j = n - 1), if_pos hj]
+        · by_cases hj2 : j + 1 = n
+          · rw [if_pos (by omega : j = n - 1), if_neg hj, if_pos hj2]
+          · have h2 : it.cells[j]? = none := List.getElem?_eq_none (by omega)
+            rw [if_neg (by omega : ¬ j = n - 1), if_neg hj, if_neg hj2, h2]
+            rfl
+      · have h1 : ¬ j < it.cells.length := by omega
+        have h2 : ¬ j + 1 = n := by omega
+        simp [hjn, h1, h2]
+    · simp only [he, if_false]
+      have hpl : (it.cells ++ List.replicate (n - it.cells.length - 1) ([] : Val)).length
+          = it.cells.length + (n - it.cells.length - 1) := by simp
+      have ih := colInner k n xs ⟨effCol it.cellCol x, n, it.cells ++ List.replicate (n - it.cells.length - 1) []⟩
+        rfl (by rw [hpl]; omega)
+        (fun h => by
+          have h' : (it.cells ++ List.replicate (n - it.cells.length - 1) ([] : Val)).length = n := h
+          rw [hpl] at h'
+          have := hside (by omega)
+          show k ≤ effCol it.cellCol x
+          omega) hasc.2 href'
+      refine ⟨ih.1, ih.2.1, by have := ih.2.2.1; rw [hpl] at this; omega, fun j => ?_⟩
+      rw [ih.2.2.2 j]
+      simp only [hpl, valAt, he, if_false]
+      rw [getD_pad]
+      by_cases hj : j < it.cells.length
+      · have : j < it.cells.length + (n - it.cells.length - 1) := by omega
+        simp [hj, this]
+      · simp only [hj, if_false]
+        by_cases hj1 : j < it.cells.length + (n - it.cells.length - 1)
+        · have h1 : ¬ j + 1 = n := by omega
+          have h2 : it.cells[j]? = none := List.getElem?_eq_none (by omega)
+          simp [hj1, h1, h2]
+        · simp [hj1]
+
+theorem colFold_get (k : Nat) : ∀ (rs : Sheet) (it : CIter),
+    it.cells.length ≤ it.cellRow → RowsAsc it.cellRow rs → Consistent it.cellRow rs →
+    ∀ j, (((rs.foldl (colRowStep k) it).cells)[j]?).getD [] =
+      if j < it.cells.length then (it.cells[j]?).getD []
+      else valAt 0 (rowAt it.cellRow rs (j + 1)) k
+  | [], it, _, _, _, j => by
+    by_cases hj : j < it.cells.length
+    · simp [hj]
+    · have : it.cells[j]? = none := List.getElem?_eq_none (by omega)
+      simp [hj, this, rowAt, valAt]
+  | r :: rs, it, hlen, h, hc, j => by
+    have hn : it.cellRow < effRow it.cellRow r := h.1
+    have inner := colInner k (effRow it.cellRow r) r.cells ⟨0, effRow it.cellRow r, it.cells⟩
+      rfl (by show it.cells.length ≤ _; omega)
+      (fun hh => by have hh' : it.cells.length = effRow it.cellRow r := hh; omega) h.2.1 hc.1
+    have hstep : colRowStep k it r =
+        r.cells.foldl (colCellStep k) ⟨0, effRow it.cellRow r, it.cells⟩ := rfl
+    simp only [List.foldl_cons]
+    rw [hstep]
+    have ih := colFold_get k rs (r.cells.foldl (colCellStep k) ⟨0, effRow it.cellRow r, it.cells⟩)
+      (by rw [inner.1]; exact inner.2.1) (by rw [inner.1]; exact h.2.2) (by rw [inner.1]; exact hc.2) j
+    rw [ih, inner.1]
+    have hge := inner.2.2.1
+    have hle := inner.2.1
+    simp only at hge
+    simp only [rowAt]
+    by_cases hj : j < it.cells.length
+    · have : j < (r.cells.foldl (colCellStep k) ⟨0, effRow it.cellRow r, it.cells⟩).cells.length := by omega
+      simp only [this, if_true, hj]
+      rw [inner.2.2.2 j]; simp [hj]
+    · simp only [hj, if_false]
+      by_cases hj1 : j < (r.cells.foldl (colCellStep k) ⟨0, effRow it.cellRow r, it.cells⟩).cells.length
+      · simp only [hj1, if_true]
+        rw [inner.2.2.2 j]
+        simp only [hj, if_false]
+        by_cases hjn : j + 1 = effRow it.cellRow r
+        · simp [hjn]
+        · have : ¬ effRow it.cellRow r = j + 1 := fun e => hjn e.symm
+          simp only [hjn, this, if_false]
+          rw [rowAt_nil_of_le rs _ (j + 1) h.2.2 (by omega)]
+          rfl
+      · simp only [hj1, if_false]
+        by_cases hjn : effRow it.cellRow r = j + 1
+        · simp only [hjn, if_true]
+          have hnone : (r.cells.foldl (colCellStep k) ⟨0, effRow it.cellRow r, it.cells⟩).cells[j]? = none :=
+            List.getElem?_eq_none (by omega)
+          have := inner.2.2.2 j
+          rw [hnone] at this
+          simp only [hj, if_false, hjn.symm, if_true, Option.getD_none] at this
+          rw [← this, rowAt_nil_of_le rs (j + 1) (j + 1) (hjn ▸ h.2.2) (Nat.le_refl _)]
+          rfl
+        · simp [hjn]
+
+/-- every column list of the column reader, at any position: the value of the grid -/
+theorem colCells_get (s : Sheet) (h : WF s) (hc : Consistent 0 s) (c j : Nat) :
+    ((colCells s c)[j]?).getD [] = value s c (j + 1) := by
+  have := colFold_get c s ⟨0, 0, []⟩ (Nat.le_refl _) h hc j
+  simpa [colCells, value] using this
+
+/-! ## the number of columns -/
+
+def tcFold (cc tot : Nat) (cs : List Cell) : Nat :=
+  (cs.foldl (fun (p : Nat × Nat) c =>
+      let cc := effCol p.1 c; (cc, if cc > p.2 then cc else p.2)) (cc, tot)).2
+
+theorem totalColsRow_eq (cs : List Cell) (tot : Nat) : totalColsRow cs tot = tcFold 0 tot cs := rfl
+
+theorem tcFold_cons (cc tot : Nat) (c : Cell) (cs : List Cell) :
+    tcFold cc tot (c :: cs) =
+      tcFold (effCol cc c) (if effCol cc c > tot then effCol cc c else tot) cs := rfl
+
+theorem le_tcFold : ∀ (cs : List Cell) (cc tot : Nat), tot ≤ tcFold cc tot cs
+  | [], _, _ => Nat.le_refl _
+  | c :: cs, cc, tot => by
+    rw [tcFold_cons]
+    have hT : tot ≤ (if effCol cc c > tot then effCol cc c else tot) := by split <;> omega
+    have := le_tcFold cs (effCol cc c) (if effCol cc c > tot then effCol cc c else tot)
+    generalize (if effCol cc c > tot then effCol cc c else tot) = T at *
+    omega
+
+theorem valAt_nil_beyond : ∀ (cs : List Cell) (cc tot k : Nat), tcFold cc tot cs < k →
+    valAt cc cs k = []
+  | [], _, _, _, _ => rfl
+  | c :: cs, cc, tot, k, h => by
+    rw [tcFold_cons] at h
+    have hle := le_tcFold cs (effCol cc c) (if effCol cc c > tot then effCol cc c else tot)
+    have hT : effCol cc c ≤ (if effCol cc c > tot then effCol cc c else tot) := by split <;> omega
+    have hne : ¬ effCol cc c = k := by
+      generalize (if effCol cc c > tot then effCol cc c else tot) = T at *
+      omega
+    simp only [valAt, hne, if_false]
+    exact valAt_nil_beyond cs _ _ k h
+
+def tcs (tot : Nat) (rs : Sheet) : Nat := rs.foldl (fun tot r => totalColsRow r.cells tot) tot
+
+theorem le_tcs : ∀ (rs : Sheet) (tot : Nat), tot ≤ tcs tot rs
+  | [], _ => Nat.le_refl _
+  | r :: rs, tot => by
+    have h1 : tcs tot (r :: rs) = tcs (totalColsRow r.cells tot) rs := rfl
+    rw [h1]
+    have := le_tcs rs (totalColsRow r.cells tot)
+    have := le_tcFold r.cells 0 tot
+    rw [totalColsRow_eq] at *
+    omega
+
+theorem rowAt_valAt_nil_beyond : ∀ (rs : Sheet) (cur tot k r : Nat), tcs tot rs < k →
+    valAt 0 (rowAt cur rs r) k = []
+  | [], _, _, _, _, _ => rfl
+  | x :: rs, cur, tot, k, r, h => by
+    have h1 : tcs tot (x :: rs) = tcs (totalColsRow x.cells tot) rs := rfl
+    rw [h1] at h
+    simp only [rowAt]
+    by_cases he : effRow cur x = r
+    · simp only [he, if_true]
+      have := le_tcs rs (totalColsRow x.cells tot)
+      exact valAt_nil_beyond x.cells 0 tot k (by rw [← totalColsRow_eq]; omega)
+    · simp only [he, if_false]
+      exact rowAt_valAt_nil_beyond rs _ _ k r h
+
+/-- no cell lies to the right of the last column `GetCols` returns -/
+theorem value_nil_beyond_totalCols (s : Sheet) (c r : Nat) (h : totalCols s < c) :
+    value s c r = [] :=
+  rowAt_valAt_nil_beyond s 0 0 c r h
+
+theorem getCols_length (s : Sheet) : (getCols s).length = totalCols s := by simp [getCols]
+
+theorem getCols_cell (s : Sheet) (h : WF s) (hc : Consistent 0 s) (c r : Nat) (h1 : 1 ≤ c)
+    (h2 : 1 ≤ r) : cellOfCols (getCols s) c r = value s c r := by
+  have h0 : ¬ (r = 0 ∨ c = 0) := by omega
+  unfold cellOfCols cellOf
+  rw [if_neg h0]
+  by_cases hin : c - 1 < totalCols s
+  · have hg : (getCols s)[c - 1]? = some (colCells s (c - 1 + 1)) := by
+      simp [getCols, hin]
+    rw [hg]
+    have hc' : c - 1 + 1 = c := by omega
+    have hr' : r - 1 + 1 = r := by omega
+    have := colCells_get s h hc c (r - 1)
+    rw [hr'] at this
+    simpa [hc'] using this
+  · have hg : (getCols s)[c - 1]? = none :=
+      List.getElem?_eq_none (by rw [getCols_length]; omega)
+    rw [hg, value_nil_beyond_totalCols s c r (by omega)]
+    rfl
 
 end XlModel.Readers
